@@ -180,12 +180,18 @@ theorem step_cases {c : Cfg} {s s' : St} {o : Obs} (h : step? c s o = some s') :
     | tw v t => exact generic _ (by intro x hx; cases hx) h
     | tr v t => exact generic _ (by intro x hx; cases hx) h
     | api v t => exact generic _ (by intro x hx; cases hx) h
+    | ig t => exact generic _ (by intro x hx; cases hx) h
     | q st n t => exact generic _ (by intro x hx; cases hx) h
     | fin t => exact generic _ (by intro x hx; cases hx) h
 
 /-- The reactions an input can have. -/
+theorem inputReaction_ig {c : Cfg} {s : St} {t : Nat} {r : St × List Out}
+    (h : inputReaction c s (.ig t) = some r) : r = (s, []) := by
+  simp only [inputReaction, Option.some.injEq] at h
+  exact h.symm
+
 theorem inputReaction_cases {c : Cfg} {s : St} {o : Obs} {r : St × List Out}
-    (h : inputReaction c s o = some r) :
+    (h : inputReaction c s o = some r) (hnig : ∀ t, o ≠ .ig t) :
     ∃ v t, o.time = t ∧
       ((c.switch = true ∧ (o = .tw v t ∨ o = .tr v t) ∧ r = switchProcess c s v t) ∨
        (c.switch = true ∧ o = .api v t ∧ r = ((switchProcess c s v t).1, .bw v t :: (switchProcess c s v t).2)) ∨
@@ -209,6 +215,7 @@ theorem inputReaction_cases {c : Cfg} {s : St} {o : Obs} {r : St × List Out}
     simp only [inputReaction] at h
     cases hsw : c.switch <;> simp [hsw] at h
     right; left; exact ⟨rfl, rfl, h.symm⟩
+  | ig t => exact absurd rfl (hnig t)
   | out x => simp [inputReaction] at h
   | q st n t => simp [inputReaction] at h
   | fin t => simp [inputReaction] at h
@@ -349,7 +356,13 @@ theorem sensor_outs_time (c : Cfg) (s : St) (v : Bool) (t : Nat) :
 theorem inputReaction_RInvAt {c : Cfg} {s : St} {o : Obs} {r : St × List Out}
     (hr : inputReaction c s o = some r) (h : RInvAt c s o.time) :
     RInvAt c r.1 o.time ∧ ∀ x ∈ r.2, x.time = o.time := by
-  obtain ⟨v, t, ht, hc⟩ := inputReaction_cases hr
+  by_cases hig : ∃ t, o = Obs.ig t
+  · obtain ⟨t0, rfl⟩ := hig
+    have hr' := inputReaction_ig hr
+    subst hr'
+    exact ⟨h, fun x hx => by cases hx⟩
+  have hnig : ∀ t, o ≠ Obs.ig t := fun t h => hig ⟨t, h⟩
+  obtain ⟨v, t, ht, hc⟩ := inputReaction_cases hr hnig
   rw [ht] at h ⊢
   rcases hc with ⟨hsw, _, rfl⟩ | ⟨hsw, _, rfl⟩ | ⟨_, _, rfl⟩ | ⟨_, _, rfl⟩
   · exact ⟨switchProcess_RInvAt c s v t hsw h, switchProcess_outs_time c s v t⟩
@@ -531,7 +544,13 @@ theorem inputReaction_lastOn {c : Cfg} {s : St} {o : Obs} {r : St × List Out}
       (r.1.resetAt.isSome = true → r.1.lastOn = some t) ∧
       (c.switch = true → c.reset.isSome = true → r.1.lastOn = some t)) ∧
     (onInputTime o = none → r.1.resetAt = s.resetAt ∧ r.1.lastOn = s.lastOn) := by
-  obtain ⟨v, t, ht, hc⟩ := inputReaction_cases hr
+  by_cases hig : ∃ t, o = Obs.ig t
+  · obtain ⟨t0, rfl⟩ := hig
+    have hr' := inputReaction_ig hr
+    subst hr'
+    exact ⟨fun t ht => by simp [onInputTime] at ht, fun _ => ⟨rfl, rfl⟩⟩
+  have hnig : ∀ t, o ≠ Obs.ig t := fun t h => hig ⟨t, h⟩
+  obtain ⟨v, t, ht, hc⟩ := inputReaction_cases hr hnig
   rw [ht] at h
   -- the ways a reaction ends: `armReset` on a state whose `st` is `v`
   have key : ∀ (s0 : St), s0.resetAt = s.resetAt → s0.lastOn = s.lastOn → s0.st = some v →
@@ -616,7 +635,13 @@ theorem inputReaction_lastOn {c : Cfg} {s : St} {o : Obs} {r : St × List Out}
 
 theorem inputReaction_log {c : Cfg} {s : St} {o : Obs} {r : St × List Out}
     (hr : inputReaction c s o = some r) : r.1.log = s.log := by
-  obtain ⟨v, t, _, hc⟩ := inputReaction_cases hr
+  by_cases hig : ∃ t, o = Obs.ig t
+  · obtain ⟨t0, rfl⟩ := hig
+    have hr' := inputReaction_ig hr
+    subst hr'
+    rfl
+  have hnig : ∀ t, o ≠ Obs.ig t := fun t h => hig ⟨t, h⟩
+  obtain ⟨v, t, _, hc⟩ := inputReaction_cases hr hnig
   rcases hc with ⟨_, _, rfl⟩ | ⟨_, _, rfl⟩ | ⟨_, _, rfl⟩ | ⟨_, _, rfl⟩
   · simp [switchProcess, (armReset_frame c _ t).2.2.2.2.2.1]
   · simp [switchProcess, (armReset_frame c _ t).2.2.2.2.2.1]
@@ -743,7 +768,8 @@ theorem HInv_run (c : Cfg) (tr : List Obs) (s : St) (h : run? (step? c) init tr 
 theorem inputReaction_on {c : Cfg} {s : St} {o : Obs} {r : St × List Out} {t rs : Nat}
     (hr : inputReaction c s o = some r) (hon : onInputTime o = some t) (hrs : c.reset = some rs)
     (hst : s.st = some true) : r.1.st = some true ∧ r.1.resetAt = some (o.time + rs) := by
-  obtain ⟨v, t', ht, hc⟩ := inputReaction_cases hr
+  have hnig : ∀ t, o ≠ Obs.ig t := fun t h => by subst h; simp [onInputTime] at hon
+  obtain ⟨v, t', ht, hc⟩ := inputReaction_cases hr hnig
   have hv : v = true := by
     rcases hc with ⟨_, ho, _⟩ | ⟨_, ho, _⟩ | ⟨_, ho, _⟩ | ⟨_, ho, _⟩
     · rcases ho with rfl | rfl <;> cases v <;> simp [onInputTime] at hon ⊢
@@ -854,7 +880,8 @@ theorem step_KInv (c : Cfg) (s : St) (e : Obs) (s' : St) (hi : RInv c s) (hk : K
       -- re-armed by this very input
       left
       have harm := h1.onArmed
-      obtain ⟨v, t', ht', hc'⟩ := inputReaction_cases hr0
+      have hnig : ∀ t, e ≠ Obs.ig t := fun t h => by subst h; simp [onInputTime] at hon
+      obtain ⟨v, t', ht', hc'⟩ := inputReaction_cases hr0 hnig
       -- the reaction of a switch to an 'on' input arms at `e.time + r`
       have hte : e.time = l := by
         cases e <;> simp [onInputTime] at hon <;> (try cases hon) <;>
@@ -1008,7 +1035,13 @@ theorem armReset_CInvAt {c : Cfg} {s : St} {t t' : Nat} (h : CInvAt c s t) : CIn
 
 theorem inputReaction_CInvAt {c : Cfg} {s : St} {o : Obs} {r : St × List Out}
     (hr : inputReaction c s o = some r) (h : CInvAt c s o.time) : CInvAt c r.1 o.time := by
-  obtain ⟨v, t, ht, hc⟩ := inputReaction_cases hr
+  by_cases hig : ∃ t, o = Obs.ig t
+  · obtain ⟨t0, rfl⟩ := hig
+    have hr' := inputReaction_ig hr
+    subst hr'
+    exact h
+  have hnig : ∀ t, o ≠ Obs.ig t := fun t h => hig ⟨t, h⟩
+  obtain ⟨v, t, ht, hc⟩ := inputReaction_cases hr hnig
   rw [ht] at h ⊢
   rcases hc with ⟨_, _, rfl⟩ | ⟨_, _, rfl⟩ | ⟨_, _, rfl⟩ | ⟨_, _, rfl⟩
   · unfold switchProcess
